@@ -558,3 +558,46 @@ def inline_value_calls(p: Program, f: Function, depth: int = 2, keep=()) -> Func
     g = copy.copy(f)
     g.node = node
     return g
+
+
+def normalise_mapping_loops(f: Function, mapping: str) -> Function:
+    """Copy of f in which `for k, v in M.items():` / `for k, v in M.data_vars.items():` (M the named parameter, an xarray
+    Dataset or a dict) reads `for k in M:` with `v = M[k]` as the first statement of the body; `for k in M.data_vars:` and
+    `for k in M.keys():` read `for k in M:`.  Iterating a Dataset yields its data variables, so these are the same loops."""
+    import copy
+    node = copy.deepcopy(f.node)
+    for n in ast.walk(node):
+        if not isinstance(n, ast.For):
+            continue
+        it = n.iter
+        src = None
+        pairs = False
+        if isinstance(it, ast.Call) and isinstance(it.func, ast.Attribute) and not it.args and not it.keywords \
+                and it.func.attr in ("items", "keys"):
+            src, pairs = it.func.value, it.func.attr == "items"
+        elif isinstance(it, ast.Attribute) and it.attr == "data_vars":
+            src = it
+        if src is None:
+            continue
+        if isinstance(src, ast.Attribute) and src.attr == "data_vars":
+            src = src.value
+        if not (isinstance(src, ast.Name) and src.id == mapping):
+            continue
+        if pairs:
+            if not (isinstance(n.target, ast.Tuple) and len(n.target.elts) == 2 and all(isinstance(e, ast.Name) for e in n.target.elts)):
+                continue
+            k, v = n.target.elts
+            bind = ast.Assign(targets=[ast.Name(id=v.id, ctx=ast.Store())],
+                              value=ast.Subscript(value=ast.Name(id=mapping, ctx=ast.Load()), slice=ast.Name(id=k.id, ctx=ast.Load()),
+                                                  ctx=ast.Load()))
+            for sub in ast.walk(bind):
+                ast.copy_location(sub, n.target)
+            n.target = ast.copy_location(ast.Name(id=k.id, ctx=ast.Store()), n.target)
+            n.body = [bind] + n.body
+        elif not isinstance(n.target, ast.Name):
+            continue
+        n.iter = ast.copy_location(ast.Name(id=mapping, ctx=ast.Load()), it)
+    ast.fix_missing_locations(node)
+    g = copy.copy(f)
+    g.node = node
+    return g
